@@ -1171,15 +1171,21 @@ def judge_config(b: Bench, op: dict, cfg: dict, diff: bool) -> None:
             r = lay.find(k)
         except bitvec.NotFound:
             r = None
-        if diff and r is not None and r.is_group and r.reset != 0:
+        if r is not None and r.reverse and r.alt_widths and cfg.get(k) == r.hex(inferred=True):
+            found.add(KNOWN_ALTWIDTH)
+        elif diff and r is not None and r.is_group and r.reset != 0:
             found.add("group-reset-ignores-subregister-reset-values")
         elif diff and r is not None and not r.is_group and shift_reset_field(r):
             found.add("reset-value-ignores-config-processor-of-bitfield")
         else:
             found.add("get_config-differs")
+    via = {KNOWN_ALTWIDTH: "get_config", "get_config-differs": None}
     for key in sorted(found):
-        b.fail(key, dict(detail, via="get_config(diff=True) compares the value with get_reset_value()") if key != "get_config-differs" else detail, fatal=False)
-    raise _Abort(sorted(found)[0])
+        v = via.get(key, "get_config(diff=True) compares the value with get_reset_value()")
+        b.fail(key, dict(detail, via=v) if v else detail, fatal=False)
+    fatal = sorted(found - {KNOWN_ALTWIDTH})
+    if fatal:
+        raise _Abort(fatal[0])
 
 
 # ==================================================================================================
